@@ -226,8 +226,13 @@ open Generated.ParSites ParSource
 /-- **every site's rayon variant is its sequential variant** once the known differences are erased (`norm`:
     `par_iter`→`iter`, `into_par_iter`→`into_iter`, `.par_bridge()`, `let mut`, `RwLock`/`RefCell` and
     lock-vs-borrow, `ParNameList`/`SeqNameList`).  Everything else a task does — the closure of the glyph loop, the
-    collector, the error path, `get`, `contains` — is either the same text for both builds or compared here. -/
-theorem source_par_bodies_equal_seq : allSites.all (fun s => norm s.par == norm s.seq) = true := by
+    collector, the error path, `contains` — is either the same text for both builds or compared here.  The one
+    pair that may differ beyond `norm` is the `impl` of the name table: its rayon `get` may have either of the two
+    known forms (`source_get_is_two_step`), the sequential one the plain form. -/
+theorem source_par_bodies_equal_seq :
+    allSites.all (fun s => norm s.par == norm s.seq ||
+      (isTableImpl s && (knownTableShapes.map (·.1)).contains (shape (norm s.par)) &&
+        shape (norm s.seq) == modelTableShape)) = true := by
   decide +kernel
 
 /-- **the sites are exactly the model's parallel steps**: the pairs that introduce a parallel iteration are the
@@ -257,12 +262,25 @@ theorem source_shared_state_matches_model :
     modelParSteps.map (·.2.2.2) = ["par_load_eq_seq", "par_save_eq_seq"] := by decide
 
 /-- **`get` is the model's two atomic steps**: the table words of the rayon `impl`, after `norm`, are in order
-    exactly: `get` = look up under the read lock and clone; on a miss `HashSet::insert` under the write lock and a clone of
-    the requested name (`getSplit` / `writeStep false` of the model); `contains` = a lookup under the read lock.
-    Local names and punctuation are not compared (a renaming is not a change). -/
+    one of the two known forms.  Plain: look up under the read lock and clone; on a miss `HashSet::insert` under the
+    write lock and a clone of the requested name (`getSplit` with `writeStep false`).  Double-checked: on a miss take
+    the write lock, look up again, hand out the stored name if present, else insert and hand out the requested one
+    (`writeStepRecheck` = `writeStep true`, `recheck_is_writeStep_true`).  `contains` = a lookup under the read
+    lock.  Local names and punctuation are not compared (a renaming is not a change); all theorems of this file hold
+    for both values of `retStored`. -/
 theorem source_get_is_two_step :
-    (nameTable.filter (fun s => s.kind = "impl")).map (fun s => shape (norm s.par)) = [modelTableShape] := by
+    (allSites.filter isTableImpl).length = 1 ∧
+    (allSites.filter isTableImpl).all
+      (fun s => (knownTableShapes.map (·.1)).contains (shape (norm s.par))) = true := by
   decide +kernel
+
+/-- the double-checked write step is the `retStored = true` variant of the model's write step -/
+theorem recheck_is_writeStep_true (s : NameSet) (req : NameObj) :
+    writeStepRecheck s req = writeStep true s req := by
+  unfold writeStepRecheck writeStep insertIfAbsent
+  cases h : lookup s req.str with
+  | some e => simp [h]
+  | none => simp [lookup]
 
 /-- `norm` erases only what it is meant to: it does not identify a hashed with an ordered collection, nor two
     different method calls (non-vacuity of `source_par_bodies_equal_seq`) -/
